@@ -145,6 +145,11 @@ func c11Universe(thorough bool) []any {
 			}
 		}
 	}
+	// arrays and objects that share storage: an array and its own prefix slices, one map twice
+	alias := []any{3, 1, 2}
+	shared := map[string]any{"a": 1}
+	out = append(out, alias, alias[:2], alias[:1], alias[1:], alias[:0], []any{alias, alias[:2]}, []any{alias[:2], alias},
+		shared, map[string]any{"a": shared, "b": shared}, []any{shared, shared})
 	// containers must not hide floats >= 2^53 either
 	var filtered []any
 	for _, v := range out {
